@@ -5,6 +5,7 @@
 #ifndef WIRE_H
 #define WIRE_H
 #include "hlib.h"
+#include <sys/select.h>
 
 #define CAPMAX 64
 struct capture {
@@ -17,6 +18,8 @@ struct capture {
 extern struct capture cap[CAPMAX];
 extern int cap_count;			/* datagrams captured since cap_reset() */
 void cap_reset(void);
+extern void (*wire_sendto_hook)(int fd, const void *buf, size_t len, const struct sockaddr *to, socklen_t tolen);
+extern int (*wire_select_hook)(int nfds, fd_set *rfds, struct timeval *tv);
 
 /* datagram injected into the next recvfrom()/recvmsg(); residue fills the rest of the buffer */
 extern unsigned char inj_data[65536];
